@@ -10,7 +10,9 @@ import warnings
 def main(argv):
     pid, tier, seed, shard, nshards, out = argv
     faulthandler.enable()
-    logging.disable(logging.CRITICAL)      # streamz logs every user exception
+    logging.lastResort = None               # nothing to stderr; vf/vloop.py collects loop-level errors itself
+    logging.getLogger('streamz').setLevel(logging.CRITICAL + 10)   # streamz logs every user exception
+    logging.getLogger('distributed').setLevel(logging.CRITICAL + 10)
     warnings.simplefilter('ignore')
     mod = importlib.import_module('vf.checks.%s' % pid.lower())
     res = mod.run_shard(int(seed), tier, int(shard), int(nshards))
